@@ -72,6 +72,7 @@ func runC20(w *World, tier string, advMode string) (bool, interface{}) {
 		return false, nil
 	}
 	// junk on the original board: duplicates of genuine messages and a stranger's message
+	forgedInLog := false
 	junk := w.Tape.Bool(1, 2, "junk")
 	if junk {
 		cnt := 0
@@ -80,6 +81,20 @@ func runC20(w *World, tier string, advMode string) (bool, interface{}) {
 				return
 			}
 			cnt++
+			if advMode == "" && m.Event == "event_dkg_commit_confirm_received" && w.Tape.Bool(1, 2, "forgedFailureReport") {
+				// junk the original nodes refuse: a failure report in the sender's name that is
+				// not signed with the sender's key, right in front of its genuine contribution
+				var g struct{ ParticipantId int }
+				_ = json.Unmarshal(m.Data, &g)
+				x := storage.Message{DkgRoundID: m.DkgRoundID, Event: "event_dkg_commit_confirm_canceled_by_error", SenderAddr: m.SenderAddr}
+				x.Data, _ = json.Marshal(map[string]interface{}{"ParticipantId": g.ParticipantId, "Error": "forged failure report", "CreatedAt": time.Now()})
+				x.Signature = ed25519.Sign(freshKey(w, 4242), x.Bytes())
+				w.Board.InjectMsg(x, &Inject{Kind: "junk-forged-failure-report"})
+				w.Stats.Fault("junk-in-original-log")
+				w.Stats.Fault("forged-message-in-original-log")
+				forgedInLog = true
+				return
+			}
 			if w.Tape.Bool(1, 2, "dupOrStranger") {
 				w.Board.InjectMsg(m, &Inject{Kind: "duplicate"}) // the genuine message lands twice
 			} else {
@@ -308,7 +323,16 @@ func runC20(w *World, tier string, advMode string) (bool, interface{}) {
 				break
 			}
 			if string(d.State) != StIdle {
-				w.Fail("C20", "not-signing-ready-after-reinit/"+string(d.State), fmt.Sprintf("node %s is in %s after the reinitialisation (log-0.1.4=%v junk=%v signedBefore=%v)", nd.Name, d.State, variant014, junk, signedBefore))
+				sigState := string(d.State)
+				if forgedInLog {
+					sigState = "forged-failure-report-in-the-log/" + sigState
+				}
+				w.Fail("C20", "not-signing-ready-after-reinit/"+sigState, fmt.Sprintf("node %s is in %s after the reinitialisation (log-0.1.4=%v junk=%v forged-message-in-log=%v signedBefore=%v)", nd.Name, d.State, variant014, junk, forgedInLog, signedBefore))
+				if forgedInLog {
+					// (a recorded finding does not end the run, but nothing further can be judged
+					// on a round the forged report has cancelled)
+					return true, map[string]interface{}{"n": n, "t": t, "forged_message_in_log": true}
+				}
 				break
 			}
 			if d.Payload.Threshold != t || len(d.Payload.IDs) != n {
